@@ -39,6 +39,20 @@ CLAIMS["C01"] = dict(
          "Outside the model: EQU expressions, JmpErrors/-Y, the instruction encoders (sizes are abstract functions; the oracle's mini decoders cover lda/ldaa/jmp/bra/data words only). Partial: termination clause by search only.",
     ref="4.1")
 
+CLAIMS['C09'] = dict(
+    technique='Lean 4 proof (omega over div/mod transcriptions of the byte helpers and of Double_2_ieee2; induction for DUP replication and the byte decoder; decide over the regenerated IntTypeDefs table) + model/impl correspondence on real code files + spec-on-implementation',
+    text="Proved for every value the 64-bit evaluator can deliver: a DC.B/W/L/Q (68000 word-listed and 6809/68HC12 byte-listed), DB/DW/DD/DQ (little and big endian) or BYT/FCB/ADR/FDB statement with one integer argument is accepted iff -2^(w-1) <= v < 2^w (RangeCheck over the IntTypeDefs table regenerated from asmpars.c each run) and then lays exactly the two's-complement bytes in the target's byte order, with the PADDING byte exactly where the manual puts it (C09_int_moto, C09_int_intel, C09_int_moto8, C09_enter_bytes, C09_padding, C09_decode); n DUP (body) lays n copies of any body / reserves n times its size for all n >= 1 (C09_dup, C09_reserve, C09_reserve_moto); Double_2_ieee2 equals round-to-nearest-even (C09_rne characterises the rounding) for all doubles in the half format's normal range incl. exponent carry and overflow rejection (C09_half_partial). Four defects of the unchanged code have proved negations and are reported as known findings.",
+    note=TB + "Differentially tested only (9000 slots per quick run on 68000/6809/68HC12/6502/Z80/8086/8051-bigendian, compared cell by cell with model and spec): statements with several arguments, strings, [n] repetition, nested DUP trees as a whole, error paths, '?' mixing, DC.S/D/X, DD/DQ/DT float forms, DFS/RMB/DS. Assumed: the C cast double->float is IEEE round-to-nearest-even and the assembler's decimal->double conversion is correctly rounded (both are exercised against the spec on every float case). Outside the model: expression evaluation (C08), CHARSET maps, single-quoted multi-character constants, word-granular Intel targets, DN, DC.P, TI/National/VAX/IBM float pseudo-ops, the 1 KiB-per-line limit (SetMaxCodeLen). The model is bug-compatible; two self-calibrating probes (dc.c 1.0 on 6809, dw 1.0e-7 on Z80) switch it to the intended behaviour once the defects are repaired.",
+    ref='4.9',
+)
+
+CLAIMS['C12'] = dict(
+    technique='Lean 4 proof (mutual structural induction over first-order skeleton trees with a composable frame predicate: the asmif.c stack machine refines the structural selection; lock-step simulation of the machine with a pushdown recogniser of well-nestedness) + model/impl correspondence on real asl runs (marker bytes in .p, -E error channel)',
+    text='Theorems for ALL skeletons (any depth, any number of ELSEIF/CASE branches, IF/IFDEF/IFNDEF/IFUSED/IFNUSED/IFEXIST/IFNEXIST/IFB/IFNB heads, SWITCH with arbitrary CASE value lists + ELSECASE, statements before the first CASE) and ALL statement lists: C12_select (a pass over the flattened skeleton assembles exactly selB = first true branch else default, stack empty, IfAsm on, no crash, no error), C12_select_all_args (no side condition when CodeIFB looks at every argument), C12_other_branches_inert (a skipped well-nested text emits nothing, leaves stack/IfAsm, reports no error), C12_unselected_irrelevant, C12_unbalanced / C12_unbalanced_reported (every ill-nested list ends with a reported error >= 1000, or - with the pinned CodeELSECASE - a crash), C12_balanced_clean + C12_skeletons_wellnested (the converse), C12_finding_* (proved witnesses of the three defects). Correspondence: exhaustive enumeration of all skeletons of <= 2 constructs x all condition vectors, sampled skeletons up to depth 4 / 6 branches with int/float/string selectors and blank/non-blank (macro) arguments, exhaustive + mutated statement streams; model = real asl on every case, spec evaluated on the real output.',
+    note=TB + "Modelled, not verified: asmif.c CodeIFs and callees, PushIF, the CodeIFs-first dispatch of as.c Produce_Code and the MissEndif check of AssembleFile_ExitPass as Model/Cond.lean; conditions are abstracted to their evaluated truth value / selector value (expression evaluation is C08's subject; the generator only uses trivially true/false spellings). Three behaviours are model parameters calibrated by probing the real binary every run (CodeIFB index stride, lone ELSECASE crash, ENDCASE warning for a skipped SWITCH); the spec does not depend on them, so the check stays green after the repairs (tried on a scratch copy with the three repairs applied: exit 0, no KNOWN-FINDING line). C12_select needs the side condition faithfulB exactly for IFB/IFNB lines the pinned CodeIFB misjudges (known finding). The exact *number* of 'no CASE hit' warnings is only differentially tested (spec warnB vs real), the theorems state 'nothing but warnings 100'. Outside the model: SaveIFs/RestoreIFs around EXITM (transcribed as restoreIFs, neither proved nor exercised), listing annotations (ListLine, ActiveIF/IFListMask), FirstPassUnknown handling in GetIfVal/EvalIfExpression, SELECT spelling on targets where SWITCH is an instruction. Known findings on the pinned tree: ifb-every-second-argument-skipped, dead-armless-switch-warns, lone-elsecase-segv (shared with C03).",
+    ref='4.12',
+)
+
 NOT_YET = "not claimed yet in this round: model/theorems/correspondence under construction (see DESIGN.md section 8 build order)"
 
 
